@@ -245,6 +245,30 @@ def run_probe(eng, op, tv):
         if kind == "col" and o.x != x:
             vs.append(Violation("C08", "coords", name, feats, None, f"column read at x={x} carries x={o.x}"))
             return vs
+    # (i') ... and is the item that lives at those coordinates (value / style as an
+    # independent reader of the XML sees them)
+    for o, (kind, x, y) in zip(objs, exp):
+        try:
+            if kind == "cell":
+                want = tv.rows[y][x] if y < H and x < len(tv.rows[y]) else None
+                if want is not None and not want.nchild > 1:
+                    got_v, got_s = ts.norm(o.get_value()), o.style
+                    if got_v != ts.norm(want.value) or got_s != want.style:
+                        vs.append(Violation("C08", "wrong-item", name, feats, None, f"cell read at ({x},{y}) holds {got_v!r}@{got_s}, the table has {want!r} there"))
+                        return vs
+            elif kind == "row" and y < H:
+                want = [ts.norm(c.value) for c in tv.rows[y]]
+                got = ts.norm(o.get_values())
+                if got != want:
+                    vs.append(Violation("C08", "wrong-item", name, feats, None, f"row read at y={y} holds {got!r}, the table has {want!r} there"))
+                    return vs
+            elif kind == "col" and x < W:
+                if (o.style, o.default_cell_style) != tuple(tv.cols[x]):
+                    vs.append(Violation("C08", "wrong-item", name, feats, None, f"column read at x={x} is styled {(o.style, o.default_cell_style)}, the table declares {tuple(tv.cols[x])} there"))
+                    return vs
+        except Exception as e:
+            vs.append(Violation("C08", "returned-object-unreadable", name, feats, type(e).__name__, f"{type(e).__name__}: {e}"))
+            return vs
     # (ii) expanded reads carry no repeat count
     if g in EXPANDING or (g == "get_cell" and op.get("keep_repeated") is False):
         for o, (kind, x, y) in zip(objs, exp):
